@@ -28,6 +28,9 @@ NOT_DECIDED = ["equality of results over all interleavings (schedules)", "absenc
 
 # every adaptor of std's sequential Iterator (and itertools) yields its items in an order that is a function of the
 # input order only - never of thread scheduling; the parallel stages allowed are pariter's order-preserving ones
+TECHNIQUE = ("static analysis over rustc MIR and the resolved call graph: allow-list of order-preserving adaptors on the archive pipeline, "
+             "must-pass-through join/flush ordering, call-graph reachability of rayon waits from loops that drain rendezvous streams, channel kind of the tree streamer's queue")
+
 ORDERED = re.compile(r"^std::iter::Iterator::\w+$|^itertools::Itertools::\w+$|^<.* as std::iter::Iterator>::\w+$|^std::iter::(once|empty|repeat|from_fn|successors|zip)$"
                      r"|^pariter::(IteratorExt|readahead::ReadaheadIteratorExt|parallel_map::ParallelMapIteratorExt)?.*::(parallel_map_scoped|readahead_scoped|parallel_map|readahead|parallel_filter_scoped)$"
                      r"|IteratorExt::(parallel_map_scoped|readahead_scoped)$"
